@@ -11,11 +11,14 @@ PID = "C07"
 
 
 def build(tier, rng, work):
-    return [PP.eager_graph(n, with_expected=True) for n in PP.plan(tier)] + PP.pair_graphs(rng, 12 if tier == "quick" else 160, with_expected=True)
+    graphs = [PP.eager_graph(n, with_expected=True) for n in PP.plan(tier)] + PP.pair_graphs(rng, 12 if tier == "quick" else 160, with_expected=True)
+    # generated suites: the generator's own declaration checks the resolver, the resolver checks the real parse
+    return graphs + PP.gen_graphs(rng, 8 if tier == "quick" else 96, work, with_expected=True)
 
 
 def run(tier, seed):
     return PP.generic(PID, tier, seed, {"C07"}, build,
                       "class-level edges of real parses = edges of the independent resolver, per worker; one node per class and worker",
                       ["the independent resolver trusts virttest.cartesian_config and the suite's configuration files, nothing of cartgraph/params_parser",
-                       "vm variants restricted to one per vm (CentOS/Win10/Ubuntu): no multi-variant products; generated suites not built in this revision"])
+                       "vm variants restricted to one per vm (CentOS/Win10/Ubuntu): no multi-variant products",
+                       "generated suites vary the setup DAG above the shipped object-creation/customize/connect base, not the base itself"])
